@@ -1,12 +1,119 @@
 (* Property C15 - mounting locates every valid FAT16/32 layout and rejects bad ones
-   without panic.  Only the property theorems, each closed by `exact`. *)
+   without panic.  Only the property theorems, each closed by `exact`, pinned by
+   `Check`, followed by `Print Assumptions`.
+
+   mount       : MountModel.v, the transcription of open_raw_volume / parse_volume /
+                 Bpb::create_from_bytes / InfoSector (Panic = a panic of the dev profile)
+   valid_geom, format, format_with, layout, layout_with : MountSpec.v, written from the
+                 FAT specification (independent formatter and prescribed layout)         *)
 From Coq Require Import NArith List.
 From SdMount Require Import MountModel MountSpec MountProofs.
 Import ListNotations.
 Open Scope N_scope.
 
+(* ---- 1. every well-formed partition table + boot sector (+ FS information sector): the
+   mount succeeds and reports exactly the layout the FAT specification prescribes - every
+   field of FatVolume; volumes ending at the last addressable block (g_lba + g_total = 2^32)
+   included *)
+Theorem C15_valid : forall g : geom,
+  valid_geom g -> mount (format g) (g_slot g) = Ok (layout g).
+Proof. exact mount_format. Qed.
+
+(* the layout, field by field (this is `layout g` unfolded; `Check` below pins it) *)
+Theorem C15_valid_fields : forall g : geom,
+  valid_geom g ->
+  exists v, mount (format g) (g_slot g) = Ok v /\
+    lba_start v = g_lba g /\ num_blocks v = g_part_blocks g /\
+    name v = map (g_label g) (range 0 11) /\
+    blocks_per_cluster v = g_spc g /\
+    fat_start v = g_reserved g /\
+    second_fat_start v = (if g_nfats g =? 2 then Some (g_reserved g + g_fat_size g) else None) /\
+    first_data_block v = g_reserved g + g_nfats g * g_fat_size g + (g_root_entries g * 32 + 511) / 512 /\
+    cluster_count v = (g_total g - first_data_block v) / g_spc g /\
+    (cluster_count v < 65525 ->
+       fat_specific_info v = Fat16Info (g_reserved g + g_nfats g * g_fat_size g) (g_root_entries g) /\
+       free_clusters_count v = None /\ next_free_cluster v = None) /\
+    (65525 <= cluster_count v ->
+       fat_specific_info v = Fat32Info (g_root_cluster g) (g_lba g + g_fs_info g) /\
+       free_clusters_count v = spec_free (g_info_free g) /\
+       next_free_cluster v = spec_hint (g_info_next g)).
+Proof. exact mount_format_fields. Qed.
+
+(* ---- 2. any other contents: arbitrary bytes in every block of the device (MBR, boot sector,
+   FS information sector, wherever the sectors point), any volume index, device read errors
+   included (dev idx = None): never a panic, division by zero or overflow *)
 Theorem C15_total : forall (dev : device) (volume_idx : N),
   device_ok dev -> mount dev volume_idx <> Panic.
 Proof. exact mount_total. Qed.
 
+(* ---- 3. FS information sector of a valid FAT32 volume replaced by ANY block: signatures
+   and sentinels *)
+Theorem C15_info_sentinels : forall (g : geom) (ib : block),
+  valid_geom g -> is_fat32 g = true ->
+  let r := mount (format_with g ib) (g_slot g) in
+  (get32 ib 0 <> LEAD_SIG -> r = Err (FormatError LeadSig)) /\
+  (get32 ib 0 = LEAD_SIG -> get32 ib 484 <> STRUC_SIG -> r = Err (FormatError StrucSig)) /\
+  (get32 ib 0 = LEAD_SIG -> get32 ib 484 = STRUC_SIG -> get32 ib 508 <> TRAIL_SIG ->
+     r = Err (FormatError TrailSig)) /\
+  (get32 ib 0 = LEAD_SIG -> get32 ib 484 = STRUC_SIG -> get32 ib 508 = TRAIL_SIG ->
+     exists v, r = Ok v /\ v = layout_with g (get32 ib 488) (get32 ib 492) /\
+       (get32 ib 488 = 4294967295 -> free_clusters_count v = None) /\
+       (get32 ib 488 <> 4294967295 -> free_clusters_count v = Some (get32 ib 488)) /\
+       (get32 ib 492 = 4294967295 \/ get32 ib 492 = 0 \/ get32 ib 492 = 1 -> next_free_cluster v = None) /\
+       (get32 ib 492 <> 4294967295 -> 2 <= get32 ib 492 -> next_free_cluster v = Some (get32 ib 492))).
+Proof. exact info_sentinels. Qed.
+
+(* partition table: the specific error for each defect, for any device *)
+Theorem C15_rejects : forall (dev : device) (idx : N),
+  (dev 0 = None -> mount dev idx = Err DeviceError) /\
+  (forall m, dev 0 = Some m ->
+     (get16 m 510 <> 43605 -> mount dev idx = Err (FormatError MbrSig)) /\
+     (get16 m 510 = 43605 ->
+        (4 <= idx -> mount dev idx = Err NoSuchVolume) /\
+        (idx < 4 ->
+           let p := 446 + 16 * idx in
+           (N.land (get8 m p) 127 <> 0 -> mount dev idx = Err (FormatError PartStatus)) /\
+           (N.land (get8 m p) 127 = 0 -> ~ In (get8 m (p + 4)) [4; 6; 11; 12; 14] ->
+              mount dev idx = Err (FormatError PartType)) /\
+           (N.land (get8 m p) 127 = 0 -> In (get8 m (p + 4)) [4; 6; 11; 12; 14] ->
+              mount dev idx = parse_volume dev (get32 m (p + 8)) (get32 m (p + 12)))))).
+Proof. exact mbr_rejects. Qed.
+
+(* the decider used by the correspondence check to classify geometries is valid_geom *)
+Theorem C15_decider : forall g : geom, valid_geomb g = true <-> valid_geom g.
+Proof. exact valid_geomb_spec. Qed.
+
+(* ---- non-vacuity *)
+Example C15_ex_fat16 : valid_geom ex16 /\ is_fat32 ex16 = false /\
+  mount (format ex16) 0 =
+  Ok (mkVolume 63 5000 [32;32;32;32;32;32;32;32;32;32;32] 1 67 1 (Some 18) None None 4085 (Fat16Info 35 512)).
+Proof. exact (conj ex16_valid (conj eq_refl ex16_mounts)). Qed.
+
+Example C15_ex_fat32 : valid_geom ex32 /\ is_fat32 ex32 = true /\
+  mount (format ex32) 1 =
+  Ok (mkVolume 2048 70000 [65;66;67;68;69;70;71;72;73;74;75] 1 1072 32 (Some 552) None None 65928
+        (Fat32Info 2 2049)).
+Proof. exact (conj ex32_valid (conj eq_refl ex32_mounts)). Qed.
+
+(* a FAT16 volume whose last block is block 2^32-1 of the card *)
+Example C15_ex_last_block : valid_geom ex_edge /\ g_lba ex_edge + g_total ex_edge = TWO32 /\
+  mount (format ex_edge) 3 =
+  Ok (mkVolume 4294963144 4152 [32;32;32;32;32;32;32;32;32;32;32] 1 67 1 (Some 18) None None 4085 (Fat16Info 35 512)).
+Proof. exact (conj ex_edge_valid (conj eq_refl ex_edge_mounts)). Qed.
+
+(* the formatter produces devices of bytes, so C15_total applies to every formatted device;
+   an all-ones card is a device of bytes; and Panic is a live outcome of the model when the
+   byte range is dropped *)
+Example C15_ex_total_applies : (forall g, device_ok (format g)) /\ device_ok ones_device /\
+  mount ones_device 0 = Err (FormatError MbrSig) /\ mount unbounded_device 0 = Panic.
+Proof. exact (conj format_ok (conj ones_device_ok (conj ones_device_rejected panic_is_reachable_without_byte_range))). Qed.
+
+Check (C15_valid : forall g, valid_geom g -> mount (format g) (g_slot g) = Ok (layout g)).
+Check (C15_total : forall dev idx, device_ok dev -> mount dev idx <> Panic).
+
+Print Assumptions C15_valid.
+Print Assumptions C15_valid_fields.
 Print Assumptions C15_total.
+Print Assumptions C15_info_sentinels.
+Print Assumptions C15_rejects.
+Print Assumptions C15_decider.
